@@ -53,11 +53,11 @@ func (l *LRAPlanner) finalize(ctx *shared.PlannerContext, stream *aggOpStream) {
 	switch l.Func {
 	case "rate":
 		for i := 0; i < len(stream.values); i += 2 {
-			stream.values[i] /= float64(l.Duration.Milliseconds()) / 1000
+			stream.values[i] /= float64(l.Duration.Nanoseconds()) / 1e9
 		}
 	case "bytes_rate":
 		for i := 0; i < len(stream.values); i += 2 {
-			stream.values[i] /= float64(l.Duration.Milliseconds()) / 1000
+			stream.values[i] /= float64(l.Duration.Nanoseconds()) / 1e9
 		}
 	}
 }
